@@ -111,6 +111,7 @@ impl Prop for C03 {
                 cfg_mode: CfgMode::DefaultOnly,
                 cfg_ctx_limit: 0,
                 l1: false,
+                dev_editions: vec![],
             },
             None,
         );
